@@ -22,11 +22,11 @@ import (
 	"crypto/x509"
 	"crypto/x509/pkix"
 	"encoding/hex"
+	"encoding/json"
 	"encoding/pem"
 	"errors"
 	"fmt"
 	"io"
-	"encoding/json"
 	"math/big"
 	"net"
 	"net/http"
@@ -82,6 +82,14 @@ type chain struct {
 	opsFault  string
 	hist      map[common.Address][]nonceAt // history of the account's next nonce, for the lagging "pending" view
 	sentBy    map[common.Address][]uint64  // nonces of the transactions each account submitted, in order
+	// transactions the node reports on request: pending until marked mined
+	known map[common.Hash]*knownTx
+}
+
+type knownTx struct {
+	tx    *types.Transaction
+	from  common.Address
+	mined bool
 }
 
 type nonceAt struct {
@@ -144,9 +152,30 @@ func (a *api) GetTransactionCount(addr common.Address, tag string) hexutil.Uint6
 	return hexutil.Uint64(a.c.nonces[addr])
 }
 
-func (a *api) GetTransactionByHash(common.Hash) (map[string]interface{}, error) { return nil, nil } // JSON null: unknown
-func (a *api) GasPrice() *hexutil.Big             { return (*hexutil.Big)(big.NewInt(2_000_000_000)) }
-func (a *api) MaxPriorityFeePerGas() *hexutil.Big { return (*hexutil.Big)(big.NewInt(1_000_000_000)) }
+func (a *api) GetTransactionByHash(h common.Hash) (map[string]interface{}, error) {
+	a.c.mu.Lock()
+	defer a.c.mu.Unlock()
+	k, ok := a.c.known[h]
+	if !ok {
+		return nil, nil // JSON null: unknown
+	}
+	raw, err := k.tx.MarshalJSON()
+	if err != nil {
+		return nil, err
+	}
+	m := map[string]interface{}{}
+	if err := json.Unmarshal(raw, &m); err != nil {
+		return nil, err
+	}
+	m["from"] = k.from
+	m["blockNumber"], m["blockHash"], m["transactionIndex"] = nil, nil, nil
+	if k.mined {
+		m["blockNumber"], m["blockHash"], m["transactionIndex"] = "0x5", common.HexToHash("0xb10c"), "0x0"
+	}
+	return m, nil
+}
+func (a *api) GasPrice() *hexutil.Big                            { return (*hexutil.Big)(big.NewInt(2_000_000_000)) }
+func (a *api) MaxPriorityFeePerGas() *hexutil.Big                { return (*hexutil.Big)(big.NewInt(1_000_000_000)) }
 func (a *api) EstimateGas(map[string]interface{}) hexutil.Uint64 { return 100000 }
 
 func argBytes(m map[string]interface{}, keys ...string) []byte {
@@ -275,7 +304,7 @@ func must(err error) {
 // ------------------------------------------------------------------ scenario
 
 type in struct {
-	Tag     string `json:"tag"` // nodewire
+	Tag     string `json:"tag"`     // nodewire
 	Staked  bool   `json:"staked"`  // the provider has stake at the configured provider registry
 	Allowed bool   `json:"allowed"` // the bidder has allowance at the configured bidder registry
 	Ops     bool   `json:"ops"`     // also run the stake / prepay / read operations of the two APIs
@@ -300,14 +329,14 @@ type obs struct {
 	OtherReads     []string `json:"other_reads"`        // any other (target.method) called
 	StakeReadBy    []string `json:"stake_read_by"`      // which nodes read stake during handshake + bid (before ops)
 	AllowReadBy    []string `json:"allowance_read_by"`
-	CommitTxsAt    []string `json:"commit_txs_at"`    // targets of storeCommitment transactions
-	CommitTxFrom   []string `json:"commit_tx_from"`   // which node sent them
-	OtherTxs       []string `json:"other_txs"`        // any other transaction (target.method) before ops
-	Commitments    int      `json:"commitments"`      // commitments streamed back to the bidder's client
+	CommitTxsAt    []string `json:"commit_txs_at"`     // targets of storeCommitment transactions
+	CommitTxFrom   []string `json:"commit_tx_from"`    // which node sent them
+	OtherTxs       []string `json:"other_txs"`         // any other transaction (target.method) before ops
+	Commitments    int      `json:"commitments"`       // commitments streamed back to the bidder's client
 	CommitMatches  bool     `json:"commit_matches_tx"` // each commitment's fields = ABI-decoded args of one commitment tx
 	ProviderIsP    bool     `json:"provider_address_ok"`
 	EngineSaw      int      `json:"engine_saw"`
-	APIRefused     bool     `json:"api_refused"` // the bidder node's API answered InvalidArgument and nothing was sent
+	APIRefused     bool     `json:"api_refused"`  // the bidder node's API answered InvalidArgument and nothing was sent
 	StakeTxAt      string   `json:"stake_tx_at"`  // ops: target.method:value of the RegisterStake transaction
 	PrepayTxAt     string   `json:"prepay_tx_at"` // ops: same for PrepayAllowance
 	StakeReported  string   `json:"stake_reported"`
@@ -317,6 +346,8 @@ type obs struct {
 	ProviderNoncesOK bool `json:"provider_nonces_ok"`
 	// ops: cancelling a transaction the chain node does not know is refused with an error
 	CancelUnknown string `json:"cancel_unknown_reported"`
+	// ops: a pending transaction is cancelled, is mined all the same, and is cancelled again
+	CancelMined string `json:"cancel_mined_reported"`
 	// bootnode scene: did the bootnode admit / block the provider that dialled it
 	BootAdmitted bool   `json:"boot_admitted_provider"`
 	BootBlocked  bool   `json:"boot_blocked_provider"`
@@ -620,6 +651,7 @@ func run(sc in, rng *vh.Rng, cert, keyf string) (o obs) {
 	emu.Lock()
 	emu.Unlock()
 
+	var noncesSoFar []uint64
 	if sc.Ops {
 		c.mu.Lock()
 		c.opsFault = sc.OpsFault
@@ -647,10 +679,37 @@ func run(sc in, rng *vh.Rng, cert, keyf string) (o obs) {
 		} else {
 			o.CancelUnknown = "success"
 		}
-		ocancel()
 		c.mu.Lock()
 		later := append([]txRec{}, c.txs[nBefore:]...)
+		noncesSoFar = append([]uint64{}, c.sentBy[pKS.GetAddress()]...)
 		c.mu.Unlock()
+		{
+			// a pending transaction the chain node knows (nonce far ahead of anything else here)
+			fk, _ := crypto.GenerateKey()
+			to := common.HexToAddress("0xc0ffee")
+			ftx, err := types.SignTx(types.NewTx(&types.DynamicFeeTx{ChainID: c.chainID, Nonce: 900000, To: &to, Gas: 21000,
+				GasFeeCap: big.NewInt(3_000_000_000), GasTipCap: big.NewInt(1_000_000_000), Value: big.NewInt(1)}), types.LatestSignerForChainID(c.chainID), fk)
+			must(err)
+			c.mu.Lock()
+			if c.known == nil {
+				c.known = map[common.Hash]*knownTx{}
+			}
+			c.known[ftx.Hash()] = &knownTx{tx: ftx, from: crypto.PubkeyToAddress(fk.PublicKey)}
+			c.mu.Unlock()
+			if _, err := engine.CancelTransaction(octx, &providerapiv1.CancelReq{TxHash: ftx.Hash().Hex()}); err != nil {
+				o.CancelMined = "first-cancel-refused: " + err.Error()
+			} else {
+				c.mu.Lock()
+				c.known[ftx.Hash()].mined = true
+				c.mu.Unlock()
+				if _, err := engine.CancelTransaction(octx, &providerapiv1.CancelReq{TxHash: ftx.Hash().Hex()}); err != nil {
+					o.CancelMined = "error"
+				} else {
+					o.CancelMined = "success"
+				}
+			}
+		}
+		ocancel()
 		for _, t := range later {
 			s := fmt.Sprintf("%s:%s.%s:%s", t.Node, t.To, t.Method, map[bool]string{true: "requested-value", false: "value=" + t.Value.String()}[t.Value.String() == vh.Big(stakeAmt).String() && t.Method == "registerAndStake" || t.Value.String() == vh.Big(prepayAmt).String() && t.Method == "prepay"])
 			switch t.Method {
@@ -667,6 +726,9 @@ func run(sc in, rng *vh.Rng, cert, keyf string) (o obs) {
 	c.mu.Lock()
 	ns := c.sentBy[pKS.GetAddress()]
 	c.mu.Unlock()
+	if noncesSoFar != nil {
+		ns = noncesSoFar // (the cancellation exercise at the end replaces a far-away nonce)
+	}
 	for i := 1; i < len(ns); i++ {
 		if ns[i] <= ns[i-1] {
 			o.ProviderNoncesOK = false
